@@ -505,7 +505,7 @@ theorem rep_execP (fdin : Option Handle) : Rep (fun rc => rc ≠ 0) (execP fdin)
             decide
           · intro ws
             cases ws with
-            | ok status => dsimp only; split <;> exact trivial
+            | ok status => exact trivial
             | _ => exact trivial
         | _ => exact trivial
 
